@@ -1018,6 +1018,10 @@ def term_text(t):
 
 
 def finding(kind, sig, detail, c, extra=None):
+    if sig.get("shape") in ("strdot-left-vs-lis-right", "misaligned-left-pstr-ends-first"):
+        # a known shape is reported once per kind of symptom, not once per generator family
+        # (the framework lists at most 12 distinct signatures per run)
+        sig = {k: v for k, v in sig.items() if k != "family"}
     case = {k: c[k] for k in ("id", "kind", "terms", "vars", "impl", "prolog") if k in c}
     if extra:
         case.update(extra)
